@@ -424,6 +424,14 @@ EXPECTED = [
     # (the compiler does look through it when it decides whether one use takes the whole)
     (["passata := 400g tomatoes, sieved\nsauce = passata, boiled down\npizza = top(base, 200g of sauce)\ndip = mix(100g of sauce, herbs)\nserve(pizza, dip)"],
      ["sub_recipe_quantity_unknown", "sub_recipe_quantity_unknown"]),
+    # more than there is, written as one proportion above one (alone, or with a little more elsewhere)
+    (["1 l stock\nsoup(150% of the stock, noodles)"], ["sub_recipe_used_too_much"]), (["1 l stock\nsoup(1.5 * stock, noodles)"], ["sub_recipe_used_too_much"]),
+    (["1 l stock\nsoup(3/2 of the stock, noodles)"], ["sub_recipe_used_too_much"]), (["1 l stock\nsoup(120% of the stock)\nrisotto(1% of the stock, rice)"], ["sub_recipe_used_too_much"]),
+    (["1 l stock\nsoup(2 of the stock, noodles)"], ["sub_recipe_used_too_much"]),
+    # a sub recipe made of a share of another one has no known total of its own
+    (["1kg flour\nstarter = 1/2 of the flour, fermented\nbake(1kg starter, rest of the flour)"], ["sub_recipe_quantity_unknown"]),
+    # (but a sub recipe that takes ALL of another is that other one, folded in: its total is known)
+    (["1kg flour\nstarter = rest of the flour, fermented\nbake(500g starter)\nfeed(500g starter)"], []),
     # every documented spelling of the remainder
     (["1 kg x\nf(1/2 of x)\ng(leftover x)"], []), (["1 kg x\nf(1/2 of x)\ng(Leftover x, salt)"], []), (["1 kg x\nf(1/2 of x)\ng(left over x)"], []),
     (["1 kg x\nf(1 kg x)\ng(leftover x)"], ["sub_recipe_reference_non_positive_remainder"]), (["1 kg x\nf(remainder of the x)\ng(rest x)"], ["sub_recipe_reference_non_positive_remainder"]),
